@@ -4,7 +4,7 @@
 // (D\t<hex>\t<i> prints the Debug rendering of the i-th walked node; used by --replay only)
 //   REJECT [parser-panic]          the document is not accepted by cddl_from_str(text, true)
 //   BUILDERR <msg>                 ParentVisitor::new returned Err
-//   OK\t<tree>\t<answers>\t<ptr>\t<flags>
+//   OK\t<tree>\t<answers>\t<ptr>\t<flags>\t<spans>\t<eqspan>
 //     tree    = the AST walked by THIS driver (by the AST types, not by the visitor), in preorder, one token per node:
 //               <kind>.<label>.<number of children>
 //               kind  = index of the CDDLType variant (0 CDDL .. 25 NonMemberKey), Type2 nodes are 100 + variant index
@@ -14,6 +14,13 @@
 //               `-` (None) | label of the returned node | `?` (the returned value equals no walked node)
 //     ptr     = per node: `=` returned reference is pointer-identical to the true syntactic parent,
 //               `~` it is a different object, `-` nothing returned / root
+//     spans   = per node: the node's OWN position field `start:end:line` (Rule, Group, GroupChoice, GenericParams,
+//               GenericArgs, GroupEntry, Identifier, Type, Type1, Type2, RangeCtlOp, Occur, MemberKey), `-` for the node
+//               kinds that carry none (CDDL, TypeRule, GroupRule, GenericParam, GenericArg, TypeChoice, Operator,
+//               ControlOperator, Occurrence, Value, ValueMemberKeyEntry, TypeGroupnameEntry, NonMemberKey)
+//     eqspan  = computed over every pair of walked nodes that compare `==`: comma separated `<kind>:<i>:<j>`, one
+//               example pair per node kind for which two nodes are `==` although both carry a span and the spans
+//               differ (the equality of that kind ignores the position), empty when there is none
 //     flags   = comma separated: `eq-not-equivalence` when `==` on the walked CDDLType values is not an
 //               equivalence relation on this document, `typed-mismatch:<i>` when the typed `Parent` trait query at
 //               node i disagrees with `CDDLType::parent` (checked for the impls listed in typed()), `root-typed-some`
@@ -259,6 +266,76 @@ impl<'a> Walk<'a> {
   }
 }
 
+/// the node's own span field, if its type has one
+fn own_span(t: &CDDLType) -> Option<Span> {
+  match t {
+    CDDLType::Rule(r) => Some(match r {
+      Rule::Type { span, .. } => *span,
+      Rule::Group { span, .. } => *span,
+    }),
+    CDDLType::Group(g) => Some(g.span),
+    CDDLType::GroupChoice(g) => Some(g.span),
+    CDDLType::GenericParams(g) => Some(g.span),
+    CDDLType::GenericArgs(g) => Some(g.span),
+    CDDLType::GroupEntry(g) => Some(match g {
+      GroupEntry::ValueMemberKey { span, .. } => *span,
+      GroupEntry::TypeGroupname { span, .. } => *span,
+      GroupEntry::InlineGroup { span, .. } => *span,
+    }),
+    CDDLType::Identifier(i) => Some(i.span),
+    CDDLType::Type(t) => Some(t.span),
+    CDDLType::Type1(t) => Some(t.span),
+    CDDLType::Type2(t) => Some(match t {
+      Type2::IntValue { span, .. }
+      | Type2::UintValue { span, .. }
+      | Type2::FloatValue { span, .. }
+      | Type2::TextValue { span, .. }
+      | Type2::UTF8ByteString { span, .. }
+      | Type2::B16ByteString { span, .. }
+      | Type2::B64ByteString { span, .. }
+      | Type2::Typename { span, .. }
+      | Type2::ParenthesizedType { span, .. }
+      | Type2::Map { span, .. }
+      | Type2::Array { span, .. }
+      | Type2::Unwrap { span, .. }
+      | Type2::ChoiceFromInlineGroup { span, .. }
+      | Type2::ChoiceFromGroup { span, .. }
+      | Type2::TaggedData { span, .. }
+      | Type2::DataMajorType { span, .. }
+      | Type2::Any { span } => *span,
+    }),
+    CDDLType::RangeCtlOp(o) => Some(match o {
+      RangeCtlOp::RangeOp { span, .. } => *span,
+      RangeCtlOp::CtlOp { span, .. } => *span,
+    }),
+    CDDLType::Occur(o) => Some(match o {
+      Occur::Exact { span, .. } => *span,
+      Occur::ZeroOrMore { span } => *span,
+      Occur::OneOrMore { span } => *span,
+      Occur::Optional { span } => *span,
+    }),
+    CDDLType::MemberKey(m) => match m {
+      MemberKey::Type1 { span, .. } => Some(*span),
+      MemberKey::Bareword { span, .. } => Some(*span),
+      MemberKey::Value { span, .. } => Some(*span),
+      MemberKey::NonMemberKey { .. } => None,
+    },
+    CDDLType::CDDL(_)
+    | CDDLType::TypeRule(_)
+    | CDDLType::GroupRule(_)
+    | CDDLType::GenericParam(_)
+    | CDDLType::GenericArg(_)
+    | CDDLType::TypeChoice(_)
+    | CDDLType::Operator(_)
+    | CDDLType::ControlOperator(_)
+    | CDDLType::Occurrence(_)
+    | CDDLType::Value(_)
+    | CDDLType::ValueMemberKeyEntry(_)
+    | CDDLType::TypeGroupnameEntry(_)
+    | CDDLType::NonMemberKey(_) => None,
+  }
+}
+
 macro_rules! ptr_eq_variants {
   ($a:expr, $b:expr, $($v:ident),*) => {
     match ($a, $b) {
@@ -375,6 +452,9 @@ fn run(text: &str) -> String {
   let n = w.nodes.len();
   // equivalence classes under the crate's own ==
   let mut cls: Vec<usize> = Vec::with_capacity(n);
+  let spans: Vec<Option<Span>> = w.nodes.iter().map(|x| own_span(&x.ty)).collect();
+  // one example pair per kind: nodes that are == although both carry a span and the spans differ
+  let mut eqspan: Vec<(u32, usize, usize)> = Vec::new();
   let mut flags: Vec<String> = Vec::new();
   let mut eq_bad = false;
   for i in 0..n {
@@ -391,6 +471,13 @@ fn run(text: &str) -> String {
       let e2 = w.nodes[i].ty == w.nodes[j].ty;
       if e1 != e2 || e1 != (cls[j] == c) {
         eq_bad = true;
+      }
+      if e1 {
+        if let (Some(a), Some(b)) = (spans[j], spans[i]) {
+          if a != b && !eqspan.iter().any(|x| x.0 == w.nodes[i].kind) {
+            eqspan.push((w.nodes[i].kind, j, i));
+          }
+        }
       }
     }
     #[allow(clippy::eq_op)]
@@ -458,7 +545,23 @@ fn run(text: &str) -> String {
   if root_typed.is_some() {
     flags.push("root-typed-some".to_string());
   }
-  format!("OK\t{}\t{}\t{}\t{}", tree, ans, ptr, flags.join(","))
+  let span_s: Vec<String> = spans
+    .iter()
+    .map(|x| match x {
+      Some((a, b, c)) => format!("{}:{}:{}", a, b, c),
+      None => "-".to_string(),
+    })
+    .collect();
+  let eqspan_s: Vec<String> = eqspan.iter().map(|(k, i, j)| format!("{}:{}:{}", k, i, j)).collect();
+  format!(
+    "OK\t{}\t{}\t{}\t{}\t{}\t{}",
+    tree,
+    ans,
+    ptr,
+    flags.join(","),
+    span_s.join(" "),
+    eqspan_s.join(",")
+  )
 }
 
 /// D\t<hex>\t<i>: Debug rendering (one line, truncated) of the i-th walked node; diagnostics for replays only
